@@ -17,6 +17,9 @@ fn usage() -> ! {
 }
 
 fn main() {
+    // error values of the code under test must not capture backtraces (anyhow does when this is set)
+    std::env::set_var("RUST_BACKTRACE", "0");
+    std::env::set_var("RUST_LIB_BACKTRACE", "0");
     util::install_panic_hook();
     clock::self_check();
     let args: Vec<String> = std::env::args().collect();
@@ -66,6 +69,7 @@ fn main() {
                 "cluster" => engines::cluster::replay_file(&v),
                 "pair" => engines::pair::replay(&v),
                 "mtu" => engines::mtu::replay(&v),
+                "hostile" => engines::hostile::replay(&v),
                 e => Err(format!("unknown engine {e}")),
             };
             match r {
@@ -103,6 +107,9 @@ fn run_check(prop: &str, tier: Tier) -> i32 {
         "C07" => {
             check.parts.extend(engines::mtu::run(tier, started));
             check.parts.extend(engines::pair::run("C07", tier, std::time::Instant::now()));
+        }
+        "C09" => {
+            check.parts.extend(engines::hostile::run(tier, started));
         }
         "C08" => {
             check.parts.extend(engines::wire::run("C08", tier, started));
